@@ -504,6 +504,31 @@ def walk(node, fn=None):
                     stack.append(v)
 
 
+def walk_inlined(F, gid, depth=2, crate=None, _seen=None, private_only=False):
+    """walk() over the HIR body of function `gid` that also descends into the bodies of the local functions it calls
+    (private helpers extracted by a refactoring), `depth` levels deep, each callee once.  Yields (node, owner gid).
+    For rules that ask whether a body *contains* a construct; parameter bindings of the helpers are not mapped."""
+    seen = _seen if _seen is not None else {gid}
+    tree = F.hir.get(gid)
+    if tree is None:
+        return
+    f = F.fns.get(gid)
+    cr = crate or (f.crate if f is not None else None)
+    for n in walk(tree["body"]):
+        yield n, gid
+        if depth > 0 and n["k"] in ("Call", "MethodCall"):
+            cal = n.get("callee") if n["k"] == "Call" else (n.get("resolved") or n.get("callee"))
+            if not cal:
+                continue
+            tg = F._callee_gid(cr, cal) if cr else cal
+            if tg in F.hir and tg not in seen:
+                if private_only and (F.fns.get(tg) is None or F.fns[tg].vis == "Public"):
+                    continue
+                seen.add(tg)
+                for x in walk_inlined(F, tg, depth - 1, cr, seen, private_only):
+                    yield x
+
+
 def children(n):
     for v in n.values():
         if isinstance(v, dict) and "k" in v:
